@@ -76,7 +76,8 @@ theorem logWritten_post (d : DB) (bidx : Bytes) (E : List LogEntry) (hs : LogSta
     (logWritten d bidx).pending = [] ∧ (logWritten d bidx).index = d.index ∧
     (logWritten d bidx).dataSeq = d.dataSeq ∧ (logWritten d bidx).verSeq = d.verSeq ∧
     (logWritten d bidx).lastPos = d.lastPos ∧ (logWritten d bidx).datOpen = d.datOpen ∧
-    (logWritten d bidx).failed = d.failed ∧ (logWritten d bidx).volatile = d.volatile := by
+    (logWritten d bidx).failed = d.failed ∧ (logWritten d bidx).volatile = d.volatile ∧
+    (logWritten d bidx).opts = d.opts := by
   cases ho : d.logOpen with
   | true =>
     have e : checkLog d = d := by unfold checkLog; simp [ho]
@@ -86,7 +87,7 @@ theorem logWritten_post (d : DB) (bidx : Bytes) (E : List LogEntry) (hs : LogSta
       · exact a
     unfold logWritten
     rw [e]
-    refine ⟨?_, rfl, rfl, rfl, ho, rfl, rfl, rfl, rfl, rfl, rfl, rfl, rfl⟩
+    refine ⟨?_, rfl, rfl, rfl, ho, rfl, rfl, rfl, rfl, rfl, rfl, rfl, rfl, rfl⟩
     show (d.fs.apply (.appendLog bidx)).log = _
     unfold FS.apply
     simp [hl, List.append_assoc]
@@ -101,7 +102,7 @@ theorem logWritten_post (d : DB) (bidx : Bytes) (E : List LogEntry) (hs : LogSta
       unfold checkLog; rw [if_neg (by simp [ho])]; rfl
     unfold logWritten
     rw [e]
-    refine ⟨?_, rfl, rfl, rfl, rfl, rfl, rfl, rfl, rfl, rfl, rfl, rfl, rfl⟩
+    refine ⟨?_, rfl, rfl, rfl, rfl, rfl, rfl, rfl, rfl, rfl, rfl, rfl, rfl, rfl⟩
     show (((d.fs.apply .createLog).apply (.appendLog (le32 d.verSeq))).apply (.appendLog bidx)).log = _
     unfold FS.apply
     simp [hE, encLog]
@@ -185,5 +186,176 @@ theorem plan_puts_cached (seq : Nat) (ks : List Key) (idx : List (Key × Rec)) (
       · exact ih _ (allCached_iset hc j { rc with pos := u32 pos, seq := seq } ⟨hrc.1, hrc.2⟩) _ k r h
 
 theorem core_strip (r : Rec) : core (strip r) = core r := rfl
+
+theorem ilookup_key_mem {α : Type} (k : Key) (x : α) (l : List (Key × α)) (h : ilookup k l = some x) : k ∈ Keys l := by
+  induction l with
+  | nil => simp [ilookup] at h
+  | cons hd t ih =>
+    obtain ⟨j, q⟩ := hd
+    by_cases hj : j = k
+    · simp [Keys, hj]
+    · simp only [ilookup, hj, ↓reduceIte] at h
+      have := ih h
+      simp only [Keys, List.map_cons, List.mem_cons] at this ⊢
+      exact Or.inr this
+
+theorem keys_of_absv (db : DB) : Keys db.index = (absv db).map (·.1) := by
+  simp [Keys, absv, absE, List.map_map]
+
+/-- sync() with pending records: the state after the log write (before the possible forced defrag)
+    satisfies the invariant, holds the same content, and nothing is pending. -/
+theorem sync_logWritten (db : DB) (inv : DiskInv db) (hp : db.pending.isEmpty = false)
+    (hsmall : (checkDat db).lastPos +
+      (syncPlan db.dataSeq db.index db.pending (checkDat db).lastPos).2.2.length < 2^32) :
+    ∃ L, sync db = (if L.extra > L.opts.forcedPerc * L.need / 100 then defrag L else L) ∧
+      DiskInv L ∧ absv L = absv db ∧ L.pending = [] ∧ L.opts = db.opts := by
+  obtain ⟨c_open, c_same, c_new, c_i0, c_i1, c_log, c_ds, c_vs, c_lo, c_pe, c_ix⟩ := checkDat_post db
+  -- the data file after checklogfile
+  have hfile0 : ∃ f0, dlookup db.dataSeq (checkDat db).fs.dats = some f0 ∧ (checkDat db).lastPos = f0.length ∧
+      4 ≤ f0.length ∧ (db.datOpen = true → dlookup db.dataSeq db.fs.dats = some f0) := by
+    cases ho : db.datOpen with
+    | true =>
+      obtain ⟨f, h1, h2, h3⟩ := inv.dat1 ho
+      rw [c_same ho]
+      exact ⟨f, h1, h2, h3, fun _ => h1⟩
+    | false =>
+      obtain ⟨h1, h2, _⟩ := c_new ho
+      exact ⟨le32 db.dataSeq, h1, by rw [h2]; simp, by simp, fun h => by simp at h⟩
+  obtain ⟨f0, hf0, hlp0, hf0len, hf0old⟩ := hfile0
+  have hc0 : Cached (checkDat db) := Cached.of_frame (frame_checkDat db) inv.cached
+  obtain ⟨d', hfold, hidx', hfile', hlp', hrest⟩ :=
+    syncFold_plan db.pending (checkDat db) [] f0 hc0 (by rw [c_ds]; exact hf0) hlp0
+  rw [c_ds, c_ix] at hfold hidx' hfile' hlp'
+  rw [c_ds] at hrest
+  simp only [List.nil_append] at hfold
+  -- name the plan
+  generalize hplan : syncPlan db.dataSeq db.index db.pending (checkDat db).lastPos = plan at *
+  have hkeep := syncFold_cached db.pending (checkDat db, []) hc0
+  rw [hfold] at hkeep
+  have hc' : Cached d' := hkeep.cached
+  have habs' : absv d' = absv db := hkeep.abs.trans (by unfold absv; rw [c_ix])
+  -- unpack what the loop left alone
+  unfold syncRest at hrest
+  simp only [Prod.mk.injEq] at hrest
+  obtain ⟨r_i0, r_i1, r_log, r_dats, r_ds, r_f, r_di, r_vs, r_lo, r_do, r_vol, r_opts, r_pe, r_ex, r_nd, r_ns⟩ := hrest
+  obtain ⟨E, hEfit, hEst⟩ := inv.logst
+  have hlogd' : d'.fs.log = db.fs.log := r_log.trans c_log
+  have hvs' : d'.verSeq = db.verSeq := r_vs.trans c_vs
+  have hst' : LogState d'.fs d'.verSeq E := by
+    unfold LogState at hEst ⊢
+    rw [hlogd', hvs']; exact hEst
+  have hlo' : d'.logOpen = db.logOpen := r_lo.trans c_lo
+  obtain ⟨l_log, l_i0, l_i1, l_dats, l_lo, l_pe, l_ix, l_ds, l_vs, l_lp, l_do, l_f, l_vol, l_opts⟩ :=
+    logWritten_post d' (encLog plan.2.1) E hst'
+      (by rw [hlo', hlogd']; exact inv.log1) (by rw [hlo', hlogd']; exact inv.log2)
+  refine ⟨logWritten d' (encLog plan.2.1), ?_, ?_, ?_, l_pe, ?_⟩
+  · -- sync db unfolds to this
+    unfold sync
+    rw [if_neg (by simp [inv.nv]), if_neg (by simp [hp])]
+    simp only [hfold, hc'.1]
+    rfl
+  rotate_left
+  · unfold absv; rw [l_ix]; exact habs'
+  · rw [l_opts, r_opts]
+    exact (frame_checkDat db).opts
+  -- the invariant
+  have hfits2 : ∀ e ∈ plan.2.1, EntryFits e := by
+    rw [← hplan]
+    exact plan_fits db.dataSeq inv.dseq db.pending inv.pkeys db.index inv.wf _ (by rw [hlp0]; exact hf0len)
+      (by rw [hplan]; exact hsmall)
+  have hidx0 : (logWritten d' (encLog plan.2.1)).fs.idx0 = db.fs.idx0 := l_i0.trans (r_i0.trans c_i0)
+  have hidx1 : (logWritten d' (encLog plan.2.1)).fs.idx1 = db.fs.idx1 := l_i1.trans (r_i1.trans c_i1)
+  have hlogL : (logWritten d' (encLog plan.2.1)).fs.log = some (le32 db.verSeq ++ encLog (E ++ plan.2.1)) := by
+    rw [l_log, hvs', encLog_append]
+  obtain ⟨hDI, hSV⟩ := diskIndex_log_append db.fs (logWritten d' (encLog plan.2.1)).fs db.verSeq E plan.2.1
+    hEst inv.ver inv.verlt hEfit hfits2 hidx0 hidx1 hlogL
+  have hlook := fun k => plan_lookup db.dataSeq db.pending inv.pnodup db.index (checkDat db).lastPos
+    (diskIndex db.fs) (nodup_diskIndex db.fs) k
+  rw [hplan] at hlook
+  have hdatL : dlookup db.dataSeq (logWritten d' (encLog plan.2.1)).fs.dats = some (f0 ++ plan.2.2) := by
+    rw [l_dats]; exact hfile'
+  have hother : ∀ t, t ≠ db.dataSeq → dlookup t (logWritten d' (encLog plan.2.1)).fs.dats = dlookup t db.fs.dats := by
+    intro t ht
+    rw [l_dats]
+    have h1 := congrFun r_dats t
+    simp only [ht, ↓reduceIte] at h1
+    rw [h1]
+    cases ho : db.datOpen with
+    | true => rw [c_same ho]
+    | false => exact (c_new ho).2.2 t ht
+  constructor
+  · exact ⟨l_f.trans hc'.1, by rw [AllCached, l_ix]; exact hc'.2⟩
+  · rw [l_vol, r_vol]; exact (frame_checkDat db).volatile.trans inv.nv
+  · rw [l_ix, hidx', ← hplan]; exact plan_wf db.dataSeq db.pending inv.pkeys db.index inv.wf _
+  · rw [keys_of_absv, show absv (logWritten d' (encLog plan.2.1)) = absv db from by unfold absv; rw [l_ix]; exact habs',
+      ← keys_of_absv]
+    exact inv.nodup
+  · rw [l_pe]; exact List.nodup_nil
+  · rw [l_pe]; intro k hk; cases hk
+  · rw [hSV, l_vs, hvs']
+  · rw [l_vs, hvs']; exact inv.verlt
+  · rw [l_ds, r_ds, c_ds]; exact inv.dseq
+  · refine ⟨E ++ plan.2.1, ?_, Or.inr (by rw [l_vs, hvs']; exact hlogL)⟩
+    intro e he
+    rcases List.mem_append.mp he with h | h
+    · exact hEfit e h
+    · exact hfits2 e h
+  · intro h; rw [l_lo] at h; cases h
+  · intro _; rw [hlogL]; simp
+  · -- clean: every key
+    intro k _
+    rw [hDI, (hlook k).1, l_ix, hidx']
+    by_cases hk : k ∈ db.pending
+    · simp only [hk, ↓reduceIte, Option.map_map]
+      congr 1
+    · simp only [hk, ↓reduceIte]
+      rw [(hlook k).2 hk]
+      exact inv.clean k hk
+  · -- files
+    intro k r _ hr
+    rw [l_ix, hidx'] at hr
+    by_cases hk : k ∈ db.pending
+    · have := plan_reads db.dataSeq db.pending inv.pnodup db.index f0 (fun kr hkr => (inv.wf kr hkr).2.2)
+        (by rw [← hlp0, hplan]; exact hsmall) k hk r (by rw [← hlp0, hplan]; exact hr)
+      rw [← hlp0, hplan] at this
+      exact ⟨f0 ++ plan.2.2, by rw [this.1]; exact hdatL, this.2⟩
+    · rw [(hlook k).2 hk] at hr
+      obtain ⟨f, h1, h2⟩ := inv.files k r hk hr
+      by_cases hs : r.seq = db.dataSeq
+      · cases ho : db.datOpen with
+        | true =>
+          have : f = f0 := by
+            have := hf0old ho
+            rw [hs] at h1
+            rw [h1] at this
+            exact Option.some.inj this
+          subst this
+          exact ⟨f ++ plan.2.2, by rw [hs]; exact hdatL, h2.append _⟩
+        | false =>
+          obtain ⟨j, hm⟩ := ilookup_mem k r db.index hr
+          have hkin : k ∈ Keys db.index := by
+            -- the key found by ilookup is k itself
+            have : ilookup k db.index = some r := hr
+            exact ilookup_key_mem k r db.index this
+          exact absurd (inv.dat2 ho k hkin) hk
+      · exact ⟨f, by rw [hother _ hs]; exact h1, h2⟩
+  · -- flags of the disk records
+    intro kr hkr
+    rw [hDI] at hkr
+    rcases mem_applyEntriesL _ _ kr hkr with h | h
+    · exact inv.dflags kr h
+    · obtain ⟨e, he, hee⟩ := List.mem_map.mp h
+      cases e with
+      | del k => simp [stripE] at hee
+      | put k r =>
+        simp only [stripE, LogEntry.put.injEq] at hee
+        have := plan_puts_cached db.dataSeq db.pending db.index inv.cached.2 (checkDat db).lastPos k r
+          (by rw [hplan]; exact he)
+        rw [← hee.2]; exact this
+  · intro _
+    refine ⟨f0 ++ plan.2.2, by rw [l_ds, r_ds, c_ds]; exact hdatL, ?_, by simp only [List.length_append]; omega⟩
+    rw [l_lp, hlp', hlp0]; simp
+  · intro h
+    rw [l_do, r_do, c_open] at h; cases h
 
 end GocoinV.Proofs.C19
